@@ -258,8 +258,10 @@ def all_stable(case, opa, margin=1e-6):
     for j, d in enumerate(case['ds']):
         rA, rB, _, _ = leaf_tables(case, j, loc)
         m = mask_of(case, j)
-        R = ((rA * rB * m) * a[j][:, None]).sum(axis=0) / a[j].sum()
         sel = m.any(axis=0)
+        if not sel.any():
+            continue
+        R = ((rA * rB * m) * a[j][:, None]).sum(axis=0) / a[j].sum()
         X = (R[sel] - 1.0) / d['N']
         if np.any(ns * f[j] * X <= (opa - 1.0) + margin):
             return False
